@@ -394,11 +394,28 @@ type bCase struct {
 	Lenient bool         `json:"lenient"`
 	// Unnamed: the fields are added without a name (Field.Name is optional; its zero value is the empty string)
 	Unnamed bool `json:"unnamed,omitempty"`
+	// Rows: the fields are given as Field values through AddAll (rows of a configuration file) and carry the attributes that are
+	// documented as relevant to register fields only (Bit 1..15, FromHighByte, Length): a coil field is its address
+	Rows bool `json:"rows,omitempty"`
 }
 
 func runBuilder(c bCase) harness.Result {
 	b := modbus.NewRequestBuilder("dev:502", 4)
+	if c.Rows {
+		var rows modbus.Fields
+		for i, a := range c.Addrs {
+			f := modbus.Field{ServerAddress: "dev:502", UnitID: 4, Type: modbus.FieldTypeCoil, Address: uint16(a), Bit: uint8(1 + (i*7)%15), FromHighByte: i%2 == 1, Length: uint8(i % 5)}
+			if !c.Unnamed {
+				f.Name = fmt.Sprintf("c%d", i)
+			}
+			rows = append(rows, f)
+		}
+		b.AddAll(rows)
+	}
 	for i, a := range c.Addrs {
+		if c.Rows {
+			break
+		}
 		if c.Unnamed {
 			b.Add(b.Coil(uint16(a)))
 		} else {
@@ -618,7 +635,7 @@ func dataOf(resp packet.Response) []byte {
 }
 
 func genBuilder(t *rapid.T) bCase {
-	c := bCase{Framing: gen.Framing(t), FC: rapid.SampledFrom([]uint8{1, 2}).Draw(t, "fc"), Seed: rapid.Uint64().Draw(t, "seed"), Lenient: rapid.Bool().Draw(t, "lenient")}
+	c := bCase{Framing: gen.Framing(t), FC: rapid.SampledFrom([]uint8{1, 2}).Draw(t, "fc"), Seed: rapid.Uint64().Draw(t, "seed"), Lenient: rapid.Bool().Draw(t, "lenient"), Rows: rapid.IntRange(0, 2).Draw(t, "rows") == 0}
 	base := rapid.SampledFrom([]int{0, 5, 1000, 60000, 65535 - 2100}).Draw(t, "base")
 	n := rapid.IntRange(1, 12).Draw(t, "nfields")
 	for i := 0; i < n; i++ {
